@@ -443,7 +443,7 @@ func runPubRetry(e *vlib.Env) vlib.Result {
 						st[i].source = "meta"
 					}
 				}
-				firstRefusal, refuseKind, ambiguous := -1, "", false
+				firstRefusal, refuseKind := -1, ""
 			walk:
 				for li, l := range layers {
 					if l.Kind != "D" {
@@ -471,10 +471,16 @@ func runPubRetry(e *vlib.Env) vlib.Result {
 							en := ens[len(ens)-1]
 							if en.fail {
 								if l.AllowNoDelay {
-									// generator failed and AllowNoDelay is set: refusing and forwarding unstamped are both accepted
-									ambiguous = true
+									// generator failed and AllowNoDelay is set: still a refusal. AllowNoDelay covers the absence of a
+									// generator only (godoc: "By default, the publisher returns an error when a message is published
+									// without a delay and no default delay generator is provided"); a configured generator is the last
+									// link of the statement's precedence chain and its failure is an error of Publish.
+									cnt["generator_failures_with_allow_no_delay"]++
 									if forwarded {
-										continue
+										res.Fail("generator-error-swallowed", "%s: the default generator of layer %d (%s) failed for %s; AllowNoDelay only covers a missing generator, so Publish has to fail and publish nothing, but the batch reached the inner publisher",
+											describe(), li, l, mp.UUID)
+										res.Witness = witness()
+										return
 									}
 									firstRefusal, refuseKind = li, "generator-failed(AllowNoDelay)"
 									break walk
@@ -620,7 +626,7 @@ func runPubRetry(e *vlib.Env) vlib.Result {
 							return
 						}
 					}
-					if !judgeMetric(firstM >= 0 && firstM < firstRefusal, (firstM >= 0 && firstM < firstRefusal) || ambiguous) {
+					if !judgeMetric(firstM >= 0 && firstM < firstRefusal, firstM >= 0 && firstM < firstRefusal) {
 						return
 					}
 					switch refuseKind {
